@@ -47,15 +47,15 @@ func newVerifier(repo, specDir string) (*verifier, error) {
 		sortCache: map[string]*Sort{}, structSorts: map[string]*Sort{}, opaqueSorts: map[string]*Sort{},
 		mapSorts: map[string]*Sort{}, spkgs: map[string]*ssa.Package{}, boxTags: map[string][]string{},
 		opaqueStructs: map[string]bool{
-			"github.com/ChrisTrenkamp/xsel/grammar/parser/bsr.BSR": true,
-			"github.com/ChrisTrenkamp/xsel/grammar/token.Token":    true,
-			"github.com/ChrisTrenkamp/xsel/grammar/lexer.Lexer":    true,
+			"github.com/ChrisTrenkamp/xsel/grammar/parser/bsr.BSR":    true,
+			"github.com/ChrisTrenkamp/xsel/grammar/token.Token":       true,
+			"github.com/ChrisTrenkamp/xsel/grammar/lexer.Lexer":       true,
 			"github.com/ChrisTrenkamp/xsel/grammar/parser/slot.Label": true,
-			"strings.Builder":       true,
-			"encoding/xml.Decoder":  true,
-			"encoding/json.Decoder": true,
-			"reflect.Value":         true,
-			"reflect.StructField":   true,
+			"strings.Builder":                true,
+			"encoding/xml.Decoder":           true,
+			"encoding/json.Decoder":          true,
+			"reflect.Value":                  true,
+			"reflect.StructField":            true,
 			"golang.org/x/text/language.Tag": true,
 		},
 	}
